@@ -18,7 +18,7 @@ from . import common as K
 ID = "C06"
 REACH_TARGETS = [('EKF.remove_innovation', 'formak.python:ExtendedKalmanFilter.remove_innovation'), ('EKF.sensor_model', 'formak.python:ExtendedKalmanFilter.sensor_model')]
 LEVEL = "exploration"
-RULE = ("helper units: (m, k, y, S_inv) cases, m in {1,2,3,4,5,8,18,32}, k in {0.5,1,2,3,5,7.25,1e-3,1e3}; "
+RULE = ("helper units: (m, k, y, S_inv) cases (a fifth exactly rescaled to innovations of 1e-9..1e-14), m in {1,2,3,4,5,8,18,32}, k in {0.5,1,2,3,5,7.25,1e-3,1e3}; "
         "exact class (NIS exactly representable, placed at threshold, nextafter(threshold,+-inf), "
         "thr*(1+-2^-30), 0.5x, 2x) decided incl. the boundary; generic class (random y, SPD S) decided "
         "outside a band of 64 eps sum|y_i Sinv_ij y_j|.  filter units: generated C++ filter + Python filter "
@@ -202,6 +202,13 @@ def _helper(R, rng, ctx):
         else:
             pl, y, Si = generic_case(rng, m, k)
             cls = "generic"
+        if pl != "overflow" and ci % 5 == 3:
+            # the same case in small units (innovation ~1e-9..1e-14 of the unit, S scaled with it): an exact
+            # power-of-two rescaling leaves the normalised innovation, and so the decision, unchanged
+            e_ = rng.choice([30, 40, 48])
+            y = y * 2.0 ** -e_
+            Si = Si * 2.0 ** (2 * e_)
+            R.stats.inc("cases_rescaled_to_small_units")
         cases.append((cls, pl, m, k, y, Si))
     # C++ helper, one compile per unit, compiler rotates
     compiler = "g++" if (R_uid_index(ctx) % 3) else "clang++-14"
